@@ -52,9 +52,13 @@ def main():
         rows.append(row)
         print(prop, sha, "exit", rc, "detected" if rc == 1 else "MISSED", fps[:1])
         sh("git checkout -- . && git clean -fdq netqasm", cwd=wt)
-    if not only:
-        with open(os.path.join(ROOT, "seeded", "reverted_fixes.json"), "w") as fh:
-            json.dump(rows, fh, indent=1)
+    path = os.path.join(ROOT, "seeded", "reverted_fixes.json")
+    if only and os.path.exists(path):
+        # only some commits were re-run: their rows replace / extend the stored ones
+        old = [r for r in json.load(open(path)) if r["commit"] not in {x["commit"] for x in rows}]
+        rows = old + rows
+    with open(path, "w") as fh:
+        json.dump(rows, fh, indent=1)
     return 0
 
 
